@@ -43,6 +43,9 @@ pub struct Cx {
     pub hdr_align: usize,
     pub ran: usize,
     pub rng: u64,
+    /// buffered stdout; flushed before every case that runs crate code (so that a crash can be
+    /// attributed), not for the pure `std::alloc::Layout` cases
+    pub out: std::io::BufWriter<std::io::Stdout>,
 }
 
 impl Cx {
@@ -143,14 +146,12 @@ pub fn run_case(cx: &mut Cx, query: String, f: impl FnOnce(&mut CaseOut)) {
         }
     }
     let idx = cx.idx;
-    let so = std::io::stdout();
-    {
-        let mut l = so.lock();
-        let _ = writeln!(l, "S {idx} {query}");
-        let _ = l.flush();
+    let _ = writeln!(cx.out, "S {idx} {query}");
+    if !query.starts_with("L ") {
+        let _ = cx.out.flush();
     }
     if cx.list_only {
-        println!("E {idx}");
+        let _ = writeln!(cx.out, "E {idx}");
         return;
     }
     cx.ran += 1;
@@ -175,13 +176,12 @@ pub fn run_case(cx: &mut Cx, query: String, f: impl FnOnce(&mut CaseOut)) {
     for p in problems {
         out.monitors.push(p.describe(&|a| rel_addr(a, base)));
     }
-    let mut l = so.lock();
+    let l = &mut cx.out;
     let _ = writeln!(l, "A {idx} {}", out.answer.as_deref().unwrap_or("no-answer"));
     for m in &out.monitors {
         let _ = writeln!(l, "M {idx} {}", m.replace('\n', " "));
     }
     let _ = writeln!(l, "E {idx}");
-    let _ = l.flush();
 }
 
 pub fn round_up(n: usize, a: usize) -> usize {
